@@ -255,6 +255,33 @@ def coqc_text(text: str, scratch: str, name: str = "cases", timeout: int = 600) 
     return p.returncode, p.stdout + p.stderr
 
 
+def run_cases(scratch: str, header: Sequence[str], items: Sequence[Tuple[Any, str]], shard: int = 400, jobs: int = 8,
+              name: str = "cases", timeout: int = 1200) -> Tuple[List[Any], List[str]]:
+    """Evaluate boolean case terms inside Coq, sharded into files of <= `shard` cases run in parallel.
+    items = [(case id, Coq term of type bool)].  Returns (ids of failing cases, errors of shards that did not evaluate)."""
+    from concurrent.futures import ThreadPoolExecutor
+    shards = [items[i:i + shard] for i in range(0, len(items), shard)]
+
+    def one(k_sh):
+        k, sh = k_sh
+        lines = list(header)
+        for j, (_, term) in enumerate(sh):
+            lines.append(f"Definition c{j} : bool := {term}.")
+        lines.append("Definition results : list bool := " + coq_list([f"c{j}" for j in range(len(sh))]) + ".")
+        lines.append('Eval vm_compute in ("FAIL"%string, failing results).')
+        rc, out = coqc_text("\n".join(lines) + "\n", scratch, f"{name}_{k}", timeout=timeout)
+        bad = parse_nat_list(out, "FAIL")
+        if rc != 0 or bad is None:
+            return [], [out[-800:]]
+        return [sh[j][0] for j in bad], []
+    failed, errors = [], []
+    with ThreadPoolExecutor(max_workers=jobs) as ex:
+        for f, e in ex.map(one, list(enumerate(shards))):
+            failed += f
+            errors += e
+    return failed, errors
+
+
 def print_assumptions(props_mod: str, thms: Sequence[str], scratch: str) -> Dict[str, List[str]]:
     """axioms each theorem depends on, as Print Assumptions reports them"""
     lines = [f"From DV Require Import {props_mod}.", "From Coq Require Import String."]
